@@ -20,14 +20,11 @@ def statement(header, lemma):
         except OSError: pass
     if r.returncode != 0:
         raise SystemExit('cannot Check %s:\n%s' % (lemma, r.stdout[-800:]))
-    out = r.stdout
-    if ('@' + lemma + '\n     : ') in out or ('@' + lemma + ' : ') in out:
-        lemma = '@' + lemma
-    i = out.rindex(lemma + '\n     : ') if (lemma + '\n     : ') in out else out.rindex(lemma + ' : ') if (lemma + ' : ') in out else None
-    if i is None:
+    out = r.stdout.strip()
+    m = re.match(r'(@?[\w.\']+)\s*\n?\s*:\s', out)
+    if not m:
         raise SystemExit('cannot find the statement of %s in:\n%s' % (lemma, out[-600:]))
-    body = out[i + len(lemma):]
-    body = body.lstrip()[1:] if body.lstrip().startswith(':') else body
+    body = out[m.end():]
     body = re.sub(r'\n\s*\n.*', '', body, flags=re.S)
     return '\n'.join(l.rstrip() for l in body.strip().split('\n'))
 
